@@ -2,6 +2,7 @@
    mutatePaths (on apkfs.NewMemFS() and tarfs.New()), compared with the model
    and judged by the validators of Spec/AccountsSpec.v and Spec/PathMutSpec.v. *)
 From Apko Require Export Base.Prelude Model.C13Fs Model.Accounts Model.PathMut Model.C13Build Generated.C13Consts Spec.AccountsSpec Spec.PathMutSpec.
+From Apko Require Import Proofs.AccountsCodec Proofs.AccountsParsed.
 Open Scope string_scope. Open Scope list_scope.
 
 (* ---- building the initial tree: the same calls on both sides -------------- *)
@@ -60,6 +61,7 @@ Record acc_case := {
   a_setup : list setup_op;
   a_users : list cuser; a_groups : list cgroup; a_run_as : string;
   (* observed *)
+  ao_validate_ok : bool;                 (* ImageConfiguration.Validate accepted the configuration *)
   ao_err : bool;
   ao_run_as : string;
   ao_passwd : string; ao_group : string;                                  (* final text *)
@@ -124,22 +126,33 @@ Definition homes_violations (c_dump c_layer : list dentry)
   List.concat (List.map (fun uh : cuser * (option sinfo * option sinfo) =>
                            home_violations c_dump c_layer (fst uh) (snd uh)) l).
 
+(* A configured field that holds ':' or a newline (or a name starting / a last
+   field ending with a blank) is written verbatim and the file no longer reads
+   back as old ++ configured: that failure carries its own tag (finding C13-F5)
+   when Validate accepted the configuration; a configuration Validate refuses
+   never reaches mutateAccounts in a build.  Clean configurations keep the
+   generic tags. *)
+Definition field_tag (clean validated : bool) (generic : string) : list string :=
+  if clean then [generic] else if validated then ["viol:account-field-breaks-passwd-syntax"] else [].
+
 (* the validators, on observed data only *)
 Definition acc_violations (c : acc_case) : list string :=
   if ao_err c then [] else
   (match ao_old_users c, ao_users c with
    | Some old, Some new =>
-       tag_if (negb (passwd_realised_b old (a_users c) new)) "viol:passwd-not-old-plus-configured" ++
+       (if passwd_realised_b old (a_users c) new then []
+        else field_tag (forallb clean_user (a_users c)) (ao_validate_ok c) "viol:passwd-not-old-plus-configured") ++
        tag_if (negb (run_as_resolved_b (a_run_as c) new (ao_run_as c))) "viol:run-as-not-first-match" ++
        homes_violations (ao_dump c) (ao_layer c) (zip3 (a_users c) (ao_homes c))
-   | _, _ => ["viol:passwd-unreadable"]
+   | _, _ => field_tag (forallb clean_user (a_users c)) (ao_validate_ok c) "viol:passwd-unreadable"
    end) ++
   (match a_groups c with
    | [] => []
    | _ => match ao_old_groups c, ao_groups c with
           | Some old, Some new =>
-              tag_if (negb (group_file_realised_b old (a_groups c) new)) "viol:group-not-old-plus-configured"
-          | _, _ => ["viol:group-unreadable"]
+              if group_file_realised_b old (a_groups c) new then []
+              else field_tag (forallb clean_group (a_groups c)) (ao_validate_ok c) "viol:group-not-old-plus-configured"
+          | _, _ => field_tag (forallb clean_group (a_groups c)) (ao_validate_ok c) "viol:group-unreadable"
           end
    end).
 
@@ -156,6 +169,8 @@ Definition acc_mismatches (c : acc_case) : list string :=
       (* the parsers, on the text that was there before *)
       tag_if (negb (parse_agrees ue_eqb (parse_users (file_text maxl f0 etc_passwd)) (ao_impl_old_users c))) "mismatch:passwd-parse-initial" ++
       tag_if (negb (parse_agrees ge_eqb (parse_groups (file_text maxl f0 etc_group)) (ao_impl_old_groups c))) "mismatch:group-parse-initial" ++
+      (* Validate's verdict on the configured accounts *)
+      tag_if (negb (Bool.eqb (validate_accounts (a_users c) (a_groups c)) (ao_validate_ok c))) "mismatch:validate" ++
       match mutate_accounts maxl f0 (a_users c) (a_groups c) (a_run_as c) with
       | FFuel => ["mismatch:model-out-of-fuel"]
       | FOk (f1, ra) =>
@@ -318,18 +333,21 @@ Definition e2e_home_violations (uh : cuser * (bool * (option sinfo * option sinf
 
 Definition e2e_violations (c : e2e_case) : list string :=
   if eo_err c then [] else
+  (* the build succeeded, so Validate (inside build.New) accepted the configuration *)
   (match eo_old_users c, eo_users c with
    | Some old, Some new =>
-       tag_if (negb (passwd_realised_b old (e_users c) new)) "viol:passwd-not-old-plus-configured" ++
+       (if passwd_realised_b old (e_users c) new then []
+        else field_tag (forallb clean_user (e_users c)) true "viol:passwd-not-old-plus-configured") ++
        tag_if (negb (run_as_resolved_b (e_run_as c) new (eo_config_user c))) "viol:run-as-not-first-match"
-   | _, _ => ["viol:passwd-unreadable"]
+   | _, _ => field_tag (forallb clean_user (e_users c)) true "viol:passwd-unreadable"
    end) ++
   (match e_groups c with
    | [] => []
    | _ => match eo_old_groups c, eo_groups c with
           | Some old, Some new =>
-              tag_if (negb (group_file_realised_b old (e_groups c) new)) "viol:group-not-old-plus-configured"
-          | _, _ => ["viol:group-unreadable"]
+              if group_file_realised_b old (e_groups c) new then []
+              else field_tag (forallb clean_group (e_groups c)) true "viol:group-not-old-plus-configured"
+          | _, _ => field_tag (forallb clean_group (e_groups c)) true "viol:group-unreadable"
           end
    end) ++
   List.concat (List.map e2e_home_violations (zip3 (e_users c) (eo_homes c))) ++
